@@ -297,8 +297,15 @@ fn search_sets(keys: &[usize], rep: &Report) -> bool {
             for op in ["insert", "remove"] {
                 let mut nx = n.clone();
                 nx.hist.push(format!("{op}({k})"));
-                let (want, gd, gs) = if op == "insert" { (nx.r.insert(*k), nx.d.insert(r(*k)), nx.s.insert(r(*k))) } else { (nx.r.remove(k), nx.d.remove(&r(*k)), nx.s.remove(&r(*k))) };
+                let res = catch(|| if op == "insert" { (nx.r.insert(*k), nx.d.insert(r(*k)), nx.s.insert(r(*k))) } else { (nx.r.remove(k), nx.d.remove(&r(*k)), nx.s.remove(&r(*k))) });
                 transitions += 1;
+                let (want, gd, gs) = match res {
+                    Ok(x) => x,
+                    Err(p) => {
+                        rep.violation(Violation { sig: format!("C13|containers|set-panic|{}|{op}", p.file()), what: format!("[{}] panics: {} ({})", nx.hist.join("; "), p.msg, p.short_loc()), case: json!({"kind": "containers-set", "keys": keys, "history": nx.hist}), order: transitions });
+                        return false;
+                    }
+                };
                 let mut bad: Option<(String, String)> = None;
                 if gd != want {
                     bad = Some((format!("set-{op}-result|dense"), format!("[{}] returns {gd} on DenseExprSet, expected {want}", nx.hist.join("; "))));
